@@ -48,6 +48,8 @@ class SymEval:
         self.probe = False
         self.opaque_n = 0
         self.notes = []
+        self.consts = {}       # template parameter / static constant name -> integer (the rule instantiates a dimension)
+        self.lambdas = {}      # did -> LambdaExpr node (local lambdas called directly)
         for p in fn.get("params", []):
             self.env[p["did"]] = (bind or {}).get(p["name"], psym(p["name"], integer=("long" in p["t"] or "int" in p["t"])))
 
@@ -87,6 +89,9 @@ class SymEval:
                 return self.env[did]
             if did in self.arrays:
                 return ("array", did)
+            if n.get("dk") in ("NonTypeTemplateParm",) or n.get("staticmember"):
+                if n.get("name") in self.consts:
+                    return sympy.Integer(self.consts[n["name"]])
             if n.get("dk") in ("NonTypeTemplateParm",):
                 return psym(n["name"], integer=True)
             if n.get("dk") == "EnumConstant":
@@ -182,6 +187,25 @@ class SymEval:
             if isinstance(bv, sympy.Basic) and isinstance(iv, sympy.Basic):
                 return sympy.Function("at")(bv, iv)
             return self.fresh("[]")
+        if k in ("CallExpr", "CXXOperatorCallExpr") and kids(n):
+            cal = strip(kids(n)[0]) if k == "CallExpr" else (strip(kids(n)[1]) if len(kids(n)) > 1 else None)
+            if cal is not None and cal.get("k") == "DeclRefExpr" and cal.get("did") in self.lambdas and (k == "CallExpr" or n.get("op") == "()"):
+                lam = self.lambdas[cal["did"]]
+                largs = kids(n)[1:] if k == "CallExpr" else kids(n)[2:]
+                params = lam.get("params", [])
+                lbody = [y for y in lam.get("c", []) if y is not None and y.get("k") == "CompoundStmt"]
+                rets = [y for y in kids(lbody[0])] if lbody else []
+                if len(params) == len(largs) and len(rets) == 1 and rets[0].get("k") == "ReturnStmt" and kids(rets[0]):
+                    saved = {p_["did"]: self.env.get(p_["did"]) for p_ in params}
+                    for p_, a in zip(params, largs):
+                        self.env[p_["did"]] = self.eval(a)
+                    val = self.eval(kids(rets[0])[0])
+                    for d_, v_ in saved.items():
+                        if v_ is None:
+                            self.env.pop(d_, None)
+                        else:
+                            self.env[d_] = v_
+                    return val
         if k in ("CallExpr", "CXXMemberCallExpr"):
             nm = tbf.callee_name(n) or "?"
             args = [self.eval(a) for a in tbf.call_args(n)]
@@ -276,8 +300,11 @@ class SymEval:
                     continue
                 init = kids(v)
                 t = v.get("t", "")
-                if "[" in t and not init:
+                if ("[" in t or "std::array<" in t.replace(" ", "")) and (not init or (strip(init[0]).get("k") in ("CXXConstructExpr", "InitListExpr", "CXXTemporaryObjectExpr", "ImplicitValueInitExpr", "CXXUnresolvedConstructExpr") and not kids(strip(init[0])))):
                     self.arrays[v["did"]] = {}
+                    continue
+                if init and strip(init[0]).get("k") == "LambdaExpr":
+                    self.lambdas[v["did"]] = strip(init[0])
                     continue
                 if init:
                     val = self.eval(init[0])
@@ -517,6 +544,16 @@ class SymEval:
         for d, v in final.items():
             self.env[d] = v
         self.env.pop(var["did"], None)
+
+
+def as_tuple(ev, v):
+    """a local array value as a tuple of its elements (indices 0..n-1 all defined), else v"""
+    if isinstance(v, tuple) and v and v[0] == "array":
+        arr = ev.arrays.get(v[1], {})
+        keys = sorted(int(k_[0]) for k_ in arr if len(k_) == 1 and isinstance(k_[0], sympy.Basic) and k_[0].is_Integer)
+        if keys and keys == list(range(len(keys))):
+            return tuple(arr[(sympy.Integer(i),)] for i in keys)
+    return v
 
 
 def run_function(facts, fn, int_members=(), members=None):
